@@ -28,6 +28,10 @@ def scenarios(rng, tier):
     for init in (0, 1, 8):
         for seq in itertools.product(["Ba5", "Ba40", "Bz3", "Bz20", "Br100", "Br2", "Bp", "Bc"], repeat=3 if thorough else 2):
             sc.append([f"Bi{init}"] + list(seq) + ["Bd"])
+    # a caller-allocated block handed over to the buffer (sb_buffer_init_from_bytes); size 0 is refused
+    for init in (0, 1, 8):
+        for seq in itertools.product(["Ba5", "Ba40", "Bz3", "Br100", "Br2", "Bp", "Bc"], repeat=2):
+            sc.append([f"Bo{init}"] + list(seq) + ["Bd"])
     # views over caller memory: never grown, shrunk, pruned into an allocation or freed
     for init in (0, 1, 4, 8):
         for seq in itertools.product(["Ba0", "Ba3", "Ba40", "Bz0", "Bz3", "Br100", "Br2", "Bp", "Bc"], repeat=2):
